@@ -44,11 +44,13 @@ TNBegin == Line("nbegin") /\ mk[E.u] = "idle" /\ w[E.u] = Nil /\ mk' = [mk EXCEP
 \* the registration happens somewhere inside the call (an install may slip in before it)
 SRegister == \E x \in UpdSet : mk[x] \in NameSet /\ U!Register(x, mk[x]) /\ mk' = [mk EXCEPT ![x] = "making"] /\ UNCHANGED <<l, inst>>
 SInitRead == \E x \in UpdSet : mk[x] = "making" /\ U!InitRead(x) /\ UNCHANGED <<l, inst, mk>>
+\* a value's bytes may be shared by several installs (content rolled back and forth): the line lists every install they stand for
+FromSet(f) == {f[i] : i \in DOMAIN f}
 TBuild ==
   /\ Line("build")
   /\ \/ (B(E.init) /\ mk[E.u] = "making" /\ U!InitBuild(E.u))
      \/ (~B(E.init) /\ \E t \in GetterSet : (g[t] # Nil /\ g[t].upd = E.u /\ U!GetBuild(t)))
-  /\ out'.from = E.from /\ out'.ok = B(E.ok) /\ out'.id = E.id
+  /\ out'.from \in FromSet(E.from) /\ out'.ok = B(E.ok) /\ out'.id = E.id
   /\ Adv /\ UNCHANGED <<inst, mk>>
 TNEnd ==
   /\ Line("nend") /\ mk[E.u] = "making"
@@ -60,7 +62,7 @@ SGet == \E t \in GetterSet : (U!GetLock(t) \/ U!GetRead(t)) /\ UNCHANGED <<l, in
 TVClose == Line("vclose") /\ (\E t \in GetterSet : (g[t] # Nil /\ g[t].stage = "built" /\ g[t].old = E.id /\ U!CloseOld(t))) /\ Adv /\ UNCHANGED <<inst, mk>>
 TGEnd ==
   /\ Line("gend") /\ U!GetEnd(E.t)
-  /\ out'.u = E.u /\ out'.id = E.id /\ out'.from = E.from /\ (E.err = "na" \/ out'.err = B(E.err))
+  /\ out'.u = E.u /\ out'.id = E.id /\ out'.from \in FromSet(E.from) /\ (E.err = "na" \/ out'.err = B(E.err))
   /\ Adv /\ UNCHANGED <<inst, mk>>
 TSetFail == Line("setfail") /\ U!SetFailing(E.u, B(E.fail)) /\ Adv /\ UNCHANGED <<inst, mk>>
 
